@@ -71,6 +71,10 @@ CLAIMED = {
    text='Coq theorems (every order, all spatial dimensions and ranks): the matrix handed to the eigen-solver is sum_b <X_left[:,a], Y_left[:,b]> (x_last y_last^T)[a\',b], i.e. U^T Y V^T S^-1 of the unfolded snapshot tensors (with C05 for pinv); a train with its last core replaced has entries left part x new last core (exact modes Y V^T S^-1 W L^-1, projected modes U W). tdmd_exact/tdmd_standard are tied to /repo by differential execution with svd and eig answered from a tape (SVD inputs, reduced matrix, sorted eigenvalues, all mode cores compared); side check: eigenvalues against SVD-based matrix DMD with the same relative cut, order, modes as eigenvectors of Y X^+ resp. U w, inputs unchanged.',
    note='eig/SVD are oracles; ortho flags may be switched off only for parts that are already orthonormal (their purpose) - otherwise pinv is not the pseudoinverse. Real data (the code transposes, it does not conjugate). Trusted: Coq kernel, harness tapes.',
    technique='Coq proof (running core contraction = Gram matrix of the unfolded parts) + oracle-tape correspondence (svd, eig) + matrix-DMD side check', design='6 C17'),
+ 'C18': dict(
+   text='Coq theorems: with Psi = Q C (Q orthonormal), C_x = U S V, A = Q U S^-1, B = V C_y^T Q^T: the reduced matrix handed to the eigen-solver is B A; every eigenpair (lambda, w) of B A gives the eigenpair (lambda, A w) of A B = (Psi_x^T)^+ Psi_y^T, and A w is the returned eigentensor; a call with a list of index-set pairs is the map of the single-pair routine. amuset_hosvd is tied to /repo by differential execution with every svd and eig answered from a tape (decomposition inputs, selected columns, reduced matrix, eigenvalue order, all eigentensor cores; single and list calls); side check (hosvd and hocur): list call versus single calls, distinct result objects, eigenvalues against numpy matrix EDMD with the 1e-3 cut, order by |lambda-1|, eigen-equation of dense eigentensors, data unchanged.',
+   note='PARTIAL: completeness (all non-zero EDMD eigenvalues are returned, with multiplicity), the complex ordering and the HOCUR variant are decided by the side check; SVD/eig are oracles. Three genuine defects repaired (F12, F18, F23). Trusted: Coq kernel, harness tapes.',
+   technique='Coq proofs (AB/BA eigenpair transfer, reduced matrix = BA) + oracle-tape correspondence (svd, eig) + matrix-EDMD side check', design='6 C18'),
 }
 NOT_YET = {}
 ALL = ['C%02d' % i for i in range(1, 21)]
